@@ -23,7 +23,13 @@ theorem C15_gen_dumpNonFreshWrites : Generated.dumpNonFreshWrites = some dumpNon
     `r.args ++ [(jcKey, d)]` with the descriptor value `d` it found). -/
 theorem C15_gen_loadRestores : Generated.loadRestoresInFinally = some restoresInFinally := by decide
 
+/-- `utils.ITERABLE_TYPES`, `utils.PRIMITIVE_TYPES` and `jsonclass.SUPPORTED_TYPES` hold exactly the type names of
+    the model's tables.  The tables are only ever handed to `isinstance` (and added to one another), for which the
+    order of the members has no meaning: the comparison is up to permutation (`List.isPerm` — same members, same
+    multiplicities), so that reordering a tuple in the source is not an alarm while adding, dropping or replacing
+    a member still is. -/
 theorem C15_gen_typeTables :
-    Generated.typeTables = some (iterableTypeNames, primitiveTypeNames, supportedTypeNames) := by decide
+    Generated.typeTables.map (fun t => t.1.isPerm iterableTypeNames && t.2.1.isPerm primitiveTypeNames
+      && t.2.2.isPerm supportedTypeNames) = some true := by decide
 
 end JRV.Props
